@@ -162,9 +162,18 @@ def m_pin_as_mut(ctx):
 
 
 @model(r'^Box(?:::<.*>)?::(pin|new)$|^std::boxed::Box(?:::<.*>)?::(pin|new)$')
+def make_box(v):
+    """Box value: `in` is the modelled content; field .0.0 is the raw pointer chain (Unique -> NonNull) the MIR uses when it moves out of a box
+    (`copy ((b.0: Unique<T>).0: NonNull<T>) as *const T (Transmute)` followed by `*ptr`).  Both views share the same object for non-scalar contents."""
+    o = Obj('Box', kind='box'); o.fields[('in', 0)] = v
+    holder = Obj('box-holder', kind='cell'); holder.fields[('*', 0)] = v
+    un = Obj('std::ptr::Unique'); un.fields[(None, 0)] = Ref(('field', holder, ('*', 0, '?')))
+    o.fields[(None, 0)] = un
+    return o
+
+
 def m_box_new(ctx):
-    o = Obj('Box', kind='box'); o.fields[('in', 0)] = ctx.args[0]
-    return [(None, o)]
+    return [(None, make_box(ctx.args[0]))]
 
 
 @model(r'^Arc::<.*>::new$|^std::sync::Arc::<.*>::new$|^Rc::<.*>::new$')
@@ -1820,3 +1829,13 @@ def _size_of_type(ex, ty, depth=0):
             return None
         total += _size_of_type(ex, fty, depth + 1)
     return total
+
+
+@model(r'^<\{closure@[^}]*\} as (FnOnce|FnMut|Fn)<\(.*\)>>::(call_once|call_mut|call)$')
+def m_closure_call(ctx):
+    """explicit call through the Fn* traits (e.g. the closure #[instrument] wraps around a sync fn body): `call_once(closure, (args,))`"""
+    ex, st = ctx.ex, ctx.st
+    args = ctx.args[1] if len(ctx.args) > 1 else ()
+    args = list(args) if isinstance(args, tuple) else [args]
+    ex.call_closure(st, ctx.args[0], args, ctx.dest, ctx.nxt)
+    return PUSHED
